@@ -471,7 +471,14 @@ fn main() {
 fn clone_conformance(rep: &mut Report, seed: u64) {
     let mut rng = Rng::derive(seed, &[172]);
     let mut n = 0;
-    n += checks::cloneconf::check_clone_state("sine", "kind=clone;osc=sine", |v| signal::rate(44_100.0).const_hz(440.0 + 110.0 * v as f64).sine(), |s, _i| s.next().to_bits(), rep, &mut rng, 18, 40, 10);
+    // the destination of clone_from (variant 1) differs in EVERYTHING it is built from: sample
+    // rate, frequency, and for the variable-frequency ones the control signal
+    let ctl = |v: u64| signal::from_iter((0..400u64).map(move |i| 200.0 + 37.0 * ((i + 11 * v) % 23) as f64).collect::<Vec<f64>>());
+    n += checks::cloneconf::check_clone_state("hz_phase", "kind=clone;osc=hz_phase", |v| signal::rate(44_100.0 + 3_900.0 * v as f64).hz(ctl(v)).phase(), |s, _i| s.next().to_bits(), rep, &mut rng, 18, 40, 10);
+    n += checks::cloneconf::check_clone_state("hz_sine", "kind=clone;osc=hz_sine", |v| signal::rate(48_000.0 - 16_000.0 * v as f64).hz(ctl(v)).sine(), |s, _i| s.next().to_bits(), rep, &mut rng, 18, 40, 10);
+    n += checks::cloneconf::check_clone_state("hz_square", "kind=clone;osc=hz_square", |v| signal::rate(8_000.0 * (1 + v) as f64).hz(ctl(v)).square(), |s, _i| s.next().to_bits(), rep, &mut rng, 12, 40, 10);
+    n += checks::cloneconf::check_clone_state("const_phase", "kind=clone;osc=const_phase", |v| signal::rate(44_100.0 + 3_900.0 * v as f64).const_hz(440.0 + 110.0 * v as f64).phase(), |s, _i| s.next().to_bits(), rep, &mut rng, 12, 40, 10);
+    n += checks::cloneconf::check_clone_state("sine", "kind=clone;osc=sine", |v| signal::rate(44_100.0 + 3_900.0 * v as f64).const_hz(440.0 + 110.0 * v as f64).sine(), |s, _i| s.next().to_bits(), rep, &mut rng, 18, 40, 10);
     n += checks::cloneconf::check_clone_state("saw", "kind=clone;osc=saw", |v| signal::rate(48_000.0).const_hz(1_000.0 + v as f64).saw(), |s, _i| s.next().to_bits(), rep, &mut rng, 18, 40, 10);
     n += checks::cloneconf::check_clone_state("noise", "kind=clone;osc=noise", |v| signal::noise(seed.wrapping_add(7 * v)), |s, _i| s.next().to_bits(), rep, &mut rng, 18, 40, 10);
     n += checks::cloneconf::check_clone_state("noise_simplex", "kind=clone;osc=simplex", |v| signal::rate(1_000.0).const_hz(3.0 + v as f64).noise_simplex(), |s, _i| s.next().to_bits(), rep, &mut rng, 18, 40, 10);
